@@ -26,6 +26,8 @@ def to_json(sch, t, v, enum_names=False):
         return None if v is None else to_json(sch, t[1], v, enum_names)
     if k == "enum" and enum_names:
         return [n for n, x in sch.enums[t[1]] if x == v][0]
+    if k in ("f32", "f64") and isinstance(v, float) and v != 0 and v.is_integer() and abs(v) < 2 ** 53 and int(v) % 2 == 0:
+        return int(v)  # whole numbers travel the way most JSON writers spell them: 4, not 4.0
     return v
 
 
